@@ -56,6 +56,7 @@ type c18Remote struct {
 	Field  string `json:"portable_data_hash_field,omitempty"`
 	Honest bool   `json:"honest"` // reference PDH of Text == requested hash+size
 	Canon  bool   `json:"canonical"`
+	Style  string `json:"style,omitempty"` // decoration of this remote's locators
 }
 
 type c18Case struct {
@@ -124,6 +125,7 @@ func c18GenRemoteText(r *c18Remote, base c18ref.Base, styles []string, rng *veri
 		st = c18ref.PickStyles(rng)
 	}
 	r.Canon = c18ref.LegacyCanonical(st)
+	r.Style = c18ref.StyleClass(st)
 	honest := c18ref.Dress(base, st, rng).Text()
 	r.Text = honest
 	if r.Kind == "tamper" {
@@ -194,6 +196,8 @@ func (t *c18Transport) RoundTrip(req *http.Request) (*http.Response, error) {
 	return c18Resp(200, c18Body(r)), nil
 }
 
+var c18Stalls, c18CancelMisses int32
+
 type c18Outcome struct {
 	status          int
 	body            []byte
@@ -205,8 +209,16 @@ type c18Outcome struct {
 	fellThrough     bool
 }
 
-func c18Serve(c *c18Case, path string, order []int, logger logrus.FieldLogger, idle int) c18Outcome {
-	var out c18Outcome
+func c18Serve(c *c18Case, path string, order []int, logger logrus.FieldLogger, idle int) (out c18Outcome) {
+	if atomic.LoadInt32(&c18Stalls) >= 5 {
+		out.stall = "skipped after repeated stalls"
+		return out
+	}
+	defer func() {
+		if out.stall != "" && !out.fellThrough {
+			atomic.AddInt32(&c18Stalls, 1)
+		}
+	}()
 	if !c18ref.Quiesce(idle) {
 		out.stall = "goroutines of the previous call did not finish"
 		return out
@@ -331,7 +343,11 @@ func c18Serve(c *c18Case, path string, order []int, logger logrus.FieldLogger, i
 	out.fellThrough = atomic.LoadInt32(&fell) > 0
 	pending := int(atomic.LoadInt32(&tr.calls))
 	nexit := 0
-	timeout := time.After(c18ref.Wait)
+	cwait := c18ref.Wait
+	if atomic.LoadInt32(&c18CancelMisses) >= 3 {
+		cwait = 100 * time.Millisecond // already inconclusive; do not wait 20 s every time
+	}
+	timeout := time.After(cwait)
 	for nexit < pending {
 		select {
 		case e := <-tr.exited:
@@ -341,6 +357,7 @@ func c18Serve(c *c18Case, path string, order []int, logger logrus.FieldLogger, i
 			}
 		case <-timeout:
 			out.cancelMiss = pending - nexit
+			atomic.AddInt32(&c18CancelMisses, 1)
 			cancel()
 			for nexit < pending {
 				<-tr.exited
@@ -380,7 +397,7 @@ func TestVerifC18(t *testing.T) {
 	t0 := time.Now()
 
 	// ------------------------------------------------------------ rewriteSignatures
-	n := run.N(6000, 120000)
+	n := run.N(4000, 80000)
 	run.Cases("rewrite", n, func(i int, rng *verifkit.Rand) {
 		base := c18ref.GenBase(rng)
 		styles := c18ref.PickStyles(rng)
@@ -450,9 +467,9 @@ func TestVerifC18(t *testing.T) {
 			run.Eval(1)
 			if !byUUID && r.Honest && r.Field == expect {
 				if r.Canon {
-					bad("C18:K4:legacy-rewrite:honest-answer-rejected:"+c18ref.StyleClass(styles), fmt.Sprintf("rewriteSignatures returned %v for a manifest that hashes to the expected value", err))
+					bad("C18:K4:legacy-rewrite:honest-answer-rejected:"+r.Style, fmt.Sprintf("rewriteSignatures returned %v for a manifest that hashes to the expected value", err))
 				} else {
-					run.Count("rewrite:honest-noncanonical-rejected:"+c18ref.StyleClass(styles), 1)
+					run.Count("rewrite:honest-noncanonical-rejected:"+r.Style, 1)
 				}
 			}
 			if byUUID && r.Field == c18ref.PDH(r.Text) {
